@@ -28,7 +28,7 @@ type DumpCase struct {
 
 type dumpFacts struct {
 	emptyStruct, boolean, strKeyMap, multiEntryMap, noExported, nilPtrInCollection, firstUnexported, namedKey, bulk bool
-	depth                                                                                           int
+	depth                                                                                                           int
 }
 
 // (none of these contains a character that JSON must escape: no '"', no '\\', nothing below U+0020)
